@@ -50,6 +50,10 @@ func main() {
 		err = dexMode(num(2), int(num(3)), int(num(4)), os.Args[5] == "big", enc)
 	case "swap": // swap <seed> <runs> <steps> <out>
 		err = swapMode(num(2), int(num(3)), int(num(4)), enc)
+	case "handlers-child": // handlers-child <seed> <start> <progress> <dummy out>
+		err = handlersChild(num(2), int(num(3)), os.Args[4])
+	case "handlers": // handlers <seed> <out>
+		err = handlersMode(num(2), enc)
 	case "slash": // slash <seed> <runs> <blocks> <out>
 		err = slashMode(num(2), int(num(3)), int(num(4)), enc)
 	case "replay":
